@@ -58,7 +58,34 @@ def workload(name):
                                   + [UserNameAVP("u" * (3 * k + j)) for j in range(4)] + [ResultCodeAVP(2000 + k)])
             return [msg.dump().hex() for _ in range(3)]
         return run
+    if name == "c02":
+        from bromelia.base import DiameterMessage
+        wire = c02_wire()
+
+        def run():
+            out = []
+            for _ in range(2):
+                msgs = DiameterMessage.load(wire)
+                out.append([type(a).__name__ for a in msgs[0].avps] + [type(m).__name__ for a in msgs[0].avps if hasattr(a, "avps") for m in a.avps])
+            return out
+        return run
     raise ValueError(name)
+
+
+C02_AVPS = [(264, None, "OriginHostAVP", b"host.example"), (296, None, "OriginRealmAVP", b"example"), (268, None, "ResultCodeAVP", (2001).to_bytes(4, "big")),
+            (257, None, "HostIpAddressAVP", b"\x00\x01\x0a\x00\x00\x01"), (701, 10415, "MsisdnAVP", bytes.fromhex("5512993082672f".ljust(14, "0"))[:7]),
+            (1, None, "UserNameAVP", b"user"), (1405, 10415, "UlrFlagsAVP", (3).to_bytes(4, "big")), (99999, None, "DiameterAVP", b"xyz")]
+C02_GROUP = (260, None, "VendorSpecificApplicationIdAVP", [(266, None, "VendorIdAVP", (10415).to_bytes(4, "big")), (258, None, "AuthApplicationIdAVP", (16777251).to_bytes(4, "big"))])
+
+
+def c02_wire():
+    sys.path.insert(0, VERIF)
+    from vf import refcodec as rc
+    enc = lambda c, v, d: rc.enc_avp(c, 0x40 | (0x80 if v else 0), v, d)
+    avps = [enc(c, v, d) for c, v, _, d in C02_AVPS]
+    g = C02_GROUP
+    avps.append(enc(g[0], g[1], b"".join(enc(c, v, d) for c, v, _, d in g[3])))
+    return rc.enc_msg(1, 0x80, 316, 16777251, 1, 2, avps)
 
 
 def child(name, n, delay):
@@ -109,10 +136,14 @@ def expected(name):
             s2 = s + ("f" if len(s) % 2 else "")
             return "".join(s2[i + 1] + s2[i] for i in range(0, len(s2), 2))
         return [[ref(s), s] for s in C18_STRINGS]
+    if name == "c02":
+        names = [n for _, _, n, _ in C02_AVPS] + [C02_GROUP[2]] + [n for _, _, n, _ in C02_GROUP[3]]
+        return [names, names]
     return None
 
 
-VARIANTS = [(0, 0.002), (0, 0.02), (3, 0.5), (12, 0.5), (40, 0.5), (150, 0.5), (600, 0.5), (2500, 0.5), (8000, 0.5)]
+VARIANTS = [(0, 0.002), (0, 0.02), (3, 0.5), (12, 0.5), (40, 0.5), (150, 0.5), (300, 0.5), (600, 0.5), (1000, 0.5), (1500, 0.5), (2500, 0.5), (4000, 0.5),
+            (8000, 0.5)]
 
 
 def run_variant(args):
